@@ -289,13 +289,22 @@ fn voiceset_part(rep: &Report) {
         check(vec![a.clone(), d.clone(), same.clone()], false, format!("[A, A'({}), A]", name));
         check(vec![d.clone(), a.clone(), same.clone()], false, format!("[A'({}), A, A]", name));
         check(vec![d.clone(), d.clone()], true, format!("[A'({}), A'({})]", name, name));
+        // four voices: the odd one in every position, and every split into two identical pairs
+        for pos in 0..4 {
+            let mut l = vec![a.clone(), same.clone(), a.clone(), same.clone()];
+            l[pos] = d.clone();
+            check(l, false, format!("4 voices, A'({}) at position {}", name, pos));
+        }
+        check(vec![a.clone(), a.clone(), d.clone(), d.clone()], false, format!("[A, A, A'({}), A'({})]", name, name));
+        check(vec![a.clone(), d.clone(), a.clone(), d.clone()], false, format!("[A, A'({}), A, A'({})]", name, name));
+        check(vec![a.clone(), d.clone(), d.clone(), a.clone()], false, format!("[A, A'({}), A'({}), A]", name, name));
     }
 }
 
 pub fn run(tier: Tier) -> i32 {
     let rep = Report::new("C19", tier, "model_checking");
     let depth: u8 = tier.pick(2, 3);
-    rep.set_rule("HIST (stateright BFS): all histories of set_duration/set_parameter(i)/set_gv(i) with weight vectors from {5 valid incl. vertices and (1.5,-.5); invalid: wrong lengths, sum off by 1e-6 and 0.1, NaN, (inf,-inf), empty} to the depth bound on real 2- and 3-voice engines, synthesis after every update; states merged by (depth, Debug rendering of the real InterporationWeight); plus SCOPE: VoiceSet::new on [], and on every list of 2-3 voices where one voice differs in exactly one metadata field (in every position) or in none; non-trivial = every state after at least one update");
+    rep.set_rule("HIST (stateright BFS): all histories of set_duration/set_parameter(i)/set_gv(i) with weight vectors from {5 valid incl. vertices and (1.5,-.5); invalid: wrong lengths, sum off by 1e-6 and 0.1, NaN, (inf,-inf), empty} to the depth bound on real 2- and 3-voice engines, synthesis after every update; states merged by (depth, Debug rendering of the real InterporationWeight); plus SCOPE: VoiceSet::new on [], and on every list of 2-4 voices where one voice (in every position) or an identical pair differs in exactly one metadata field (in every position) or in none; non-trivial = every state after at least one update");
     rep.assume("weight sums strictly between 1e-15 and 1e-6 away from 1 are unspecified by the property and not in the alphabet");
     voiceset_part(&rep);
     let corpus = labels::corpus();
